@@ -32,6 +32,7 @@ type spec struct {
 	kind      int64
 	ints      map[string]int64 // results of other queries on the subject: method name -> value
 	extraSubj func(v ssa.Value) bool
+	extraInt  func(v ssa.Value) (int64, bool) // other values the specialisation fixes
 	pkg       *ssa.Package
 }
 
@@ -84,6 +85,11 @@ func methodCall(v ssa.Value) (string, ssa.Value, []ssa.Value) {
 }
 
 func (ctx *specCtx) intOf(v ssa.Value) (int64, bool) {
+	if ctx.sp.extraInt != nil {
+		if n, ok := ctx.sp.extraInt(v); ok {
+			return n, true
+		}
+	}
 	switch x := v.(type) {
 	case *ssa.Const:
 		if x.Value != nil && x.Value.Kind() == constant.Int {
